@@ -16,7 +16,7 @@ from vc.propkit import judge
 PROPERTY = "C13"
 NEEDS_MODULES = ["odata_query.ast", "odata_query.visitor", "odata_query.roundtrip"]
 KNOWN = []
-CLAUSES = ("post.wf", "post.tree", "side.left", "side.right", "post.lvl", "hole.data", "safety.raise", "unsupported",
+CLAUSES = ("post.wf", "post.tree", "side.left", "side.right", "side.adj", "post.lvl", "post.lead", "hole.data", "safety.raise", "unsupported",
            "pre.frag", "decreases", "cover")
 CLS = "odata_query.roundtrip.AstToODataVisitor"
 
